@@ -43,6 +43,10 @@ func runC13(c *Ctx) error {
 	pairs := make([]pair, n)
 	for i := range pairs {
 		g := richGrammar(c.Rng)
+		if c.Rng.Intn(3) == 0 {
+			// a string literal whose content is delicate in one of the two quoting styles
+			respellStringLit(g, quoteSensitive[c.Rng.Intn(len(quoteSensitive))])
+		}
 		rr := rand.New(rand.NewSource(c.Rng.Int63()))
 		o := &gram.RenderOpts{R: rr, RandLayout: rr.Intn(4) > 0, RandLit: rr.Intn(4) > 0, RandQuote: rr.Intn(2) == 0, NoTrailingN: rr.Intn(3) == 0}
 		if !o.RandLayout && !o.RandLit {
@@ -55,6 +59,38 @@ func runC13(c *Ctx) error {
 		spellPair(c, p.g, p.a, p.b, fmt.Sprintf("g%05d", i), i%499 == 0)
 	})
 	return nil
+}
+
+// contents that both quoting styles can hold but that end or start with an escaped delimiter,
+// contain backslashes, or look like escapes (gocc takes them verbatim)
+var quoteSensitive = []string{`\"`, `a\"`, `\"b`, `\\`, `\n`, `x\ty`, `%\"`, `\'`, `'`, `\"\"`}
+
+// respellStringLit renames one string-literal terminal of g to content, everywhere it occurs.
+func respellStringLit(g *gram.Grammar, content string) {
+	old := ""
+	for _, s := range g.SyntaxTerminals() {
+		if s.Kind == gram.SStr {
+			if s.Name == content {
+				return
+			}
+			if old == "" {
+				old = s.Name
+			}
+		}
+	}
+	if old == "" {
+		return
+	}
+	for _, d := range g.NTs {
+		for ai := range d.Alts {
+			for si := range d.Alts[ai].Body {
+				sy := &d.Alts[ai].Body[si]
+				if sy.Kind == gram.SStr && sy.Name == old {
+					sy.Name = content
+				}
+			}
+		}
+	}
 }
 
 func spellPair(c *Ctx, g *gram.Grammar, a, b, name string, sample bool) {
